@@ -57,10 +57,10 @@ def build_harness():
             os.makedirs(out)
             libsrc = sorted(glob.glob(os.path.join(REPO, "lib", "*.c")))
             jobs = []
-            jobs.append((["gcc"] + CFLAGS + SAN + ["-Wl,--wrap=fopen", os.path.join(VERIF, "harness", "drv.c")] + libsrc +
+            jobs.append((["gcc"] + CFLAGS + SAN + ["-Wl,--wrap=fopen", "-Wl,--wrap=close", os.path.join(VERIF, "harness", "drv.c")] + libsrc +
                          ["-o", os.path.join(out, "drv")], "drv"))
             # the same interpreter, all scenarios of one input as concurrent threads, ThreadSanitizer
-            jobs.append((["gcc"] + CFLAGS + ["-DTHREADS", "-fsanitize=thread", "-Wl,--wrap=fopen", os.path.join(VERIF, "harness", "drv.c")] + libsrc +
+            jobs.append((["gcc"] + CFLAGS + ["-DTHREADS", "-fsanitize=thread", "-Wl,--wrap=fopen", "-Wl,--wrap=close", os.path.join(VERIF, "harness", "drv.c")] + libsrc +
                          ["-lpthread", "-o", os.path.join(out, "thr")], "thr"))
             num = os.path.join(VERIF, "harness", "num.c")
             if os.path.exists(num):
